@@ -67,8 +67,9 @@ def same_snapshot(st, snap):
 
 
 class _CancelMonitor:
-    """assumption monitor for Q4: wraps the library's pass manager in the verifier process and checks, on every call made by the library, that the output circuit is the
-    input with some pairs of H gates removed that are adjacent on their qubit (nothing added, nothing reordered) and that the input object is left unchanged"""
+    """assumption monitor for Q4: wraps the library's pass manager in the verifier process and checks, on every call made by the library, what the lemmas use of it:
+    the output implements the same Clifford as the input (conjugation action on every X_i, Z_i incl. signs), its multi-qubit gates are exactly the input's, in the same
+    order on every qubit, it is not longer than the input, and the input object is left unchanged.  (Which single-qubit gates are cancelled is the library's business.)"""
 
     def __init__(self, real):
         self.real = real
@@ -81,9 +82,26 @@ class _CancelMonitor:
         after_in = adapt.gates_of(circuit)
         got = adapt.gates_of(out)
         self.calls += 1
-        if after_in != before or not _is_hh_reduction(before, got) or out is circuit:
+        if after_in != before or not _is_sound_reduction(before, got, circuit.num_qubits) or out is circuit:
             self.bad.append((before, got))
         return out
+
+
+def _is_sound_reduction(src, dst, n):
+    def multi(gl):            # per qubit: the multi-qubit gates touching it, in order (gates on disjoint qubits may be listed in any order: same circuit DAG)
+        per = {}
+        for nm, qs in gl:
+            if len(qs) > 1 and nm not in P.IGNORED:
+                for q in qs:
+                    per.setdefault(q, []).append((nm, tuple(qs)))
+        return per
+    if multi(src) != multi(dst) or len([g for g in dst if g[0] not in P.IGNORED]) > len([g for g in src if g[0] not in P.IGNORED]):
+        return False
+    for q in range(n):
+        for p in ((1 << q, 0, 0), (0, 1 << q, 0)):
+            if P.conj_circuit(p, src) != P.conj_circuit(p, dst):
+                return False
+    return True
 
 
 def _is_hh_reduction(src, dst):
@@ -143,8 +161,8 @@ def eval_state(job):
         out += _eval_prep(n, conn, gens, label, st, snap, rec, circuits)
     if "readout" in parts:
         out += _eval_readout(n, conn, gens, label, st, snap, rec, circuits)
-    rec("Q4.monitor.cancellation_is_hh_reduction", len(mon.bad) == bad0,
-        f"InverseCancellation on {label} {n}-{conn}: output is not the input with adjacent H pairs removed: {mon.bad[bad0:bad0 + 1]}")
+    rec("Q4.monitor.cancellation_preserves_unitary_and_two_qubit_gates", len(mon.bad) == bad0,
+        f"single-qubit gate cancellation on {label} {n}-{conn}: the output is not the same Clifford with the same multi-qubit gates (or the input was modified): {mon.bad[bad0:bad0 + 1]}")
     if not circuits:
         return out
     # connectivity
@@ -167,11 +185,10 @@ def eval_state(job):
             f"{nm} circuit for {label} on {n}-{conn} (class id {cid}): cost/depth {(c, d)} differ from lookup metadata {(info.cost, info.depth)}")
     if len(circuits) == 2:
         prep, ro = circuits[0][1], circuits[1][1]
-        k = 0
-        while k < len(prep) and prep[k][0] == "x":
-            k += 1
-        rec("C04.sign_layer_only_x", prep[k:] == P.inverse_gates(ro) and all(len(q) == 1 for _, q in prep[:k]),
-            f"preparation circuit for {label} on {n}-{conn} is not (X gates) followed by the inverse of the readout circuit")
+        # property sentence "single-qubit and sign corrections never add a two-qubit gate": the signed preparation circuit costs exactly what the (sign-independent)
+        # readout circuit costs - which gates implement the corrections is the library's business
+        rec("C04.corrections_add_no_two_qubit_gate", P.two_qubit_cost(prep) == P.two_qubit_cost(ro),
+            f"preparation circuit for {label} on {n}-{conn} has {P.two_qubit_cost(prep)} two-qubit gates, the readout circuit of the same state {P.two_qubit_cost(ro)}")
     return out
 
 
